@@ -329,7 +329,7 @@ fn texts(ctx: &Ctx, rep: &mut Report) {
 }
 
 fn cases() -> impl Strategy<Value = Case> {
-    prop_oneof![
+    crate::pick![
         5 => (proggen::prog_spec(30), input_bytes(), crate::gen::layout()).prop_map(|(spec, input, layout)| Case::Program { spec, input, layout }),
         4 => (image_origin(), image_words(), input_bytes()).prop_map(|(orig, mut words, input)| {
             let room = 0x10000usize - orig as usize - 1;
@@ -358,6 +358,9 @@ impl Prop for C18 {
         texts(ctx, rep);
         let n = ctx.share(ctx.tier.pick(20_000, 200_000));
         drive(ctx, rep, "configs", cases(), n, &mut |c: &Case| judge_case(c));
+    }
+    fn fuzz_strategy(&self) -> Option<BoxedStrategy<Value>> {
+        Some(crate::fuzzmode::jv(cases()))
     }
     fn replay(&self, _ctx: &Ctx, case: &Value) -> Obs {
         match serde_json::from_value::<Case>(case.clone()) {
